@@ -4,7 +4,9 @@
 EXTENDS Cast, TLC, Json, IOUtils
 Rec == ndJsonDeserialize(IOEnv.TRACE)
 VARIABLE l
+(* a (source, target) pair for which the engine has no cast at all is outside the property's domain *)
 OK(r) ==
+  IF r.out.k = "unsupported" THEN TRUE ELSE
   CASE r.kind = "int_int"   -> IntToIntOK(r.v, r.ty, r.out)
     [] r.kind = "int_dec"   -> IntToDecOK(r.v, r.p, r.s, r.out)
     [] r.kind = "dec_dec"   -> DecToDecOK(r.v, r.s1, r.p, r.s, r.out)
